@@ -70,7 +70,21 @@ def gen_case(rng, tier, avoid):
         orig = [op for op in ops if op.get('op') == 'add' and op['kind'] == 'origin']
         rest = [op for op in ops if not (op.get('op') == 'add' and op['kind'] == 'origin')]
         ops = rest + orig
-    return {'scenario': {'env': {'tz': 'UTC'}, 'history': ops}, 'params': {'mode': mode, 'n_lf': n_lf}}
+    rewrite = None
+    if rng.random() < 0.2:
+        # the next file of a set from the same specification: written once, then header sequence number / id changed, written again
+        rewrite = []
+        for lfi in spec.lfs:
+            if rng.random() < 0.8:
+                rewrite.append({'op': 'set_fh', 'lf': lfi['lf'], 'prop': 'sequence_number',
+                                'v': rng.choice([2, 3, 10, 99999, 9999999999, rng.randint(1, 9999999999)])})
+            if rng.random() < 0.5:
+                nid = 'NEXT-%d' % rng.randint(0, 999)
+                first_o = next((op for op in ops if op.get('op') == 'add' and op['kind'] == 'origin' and op['lf'] == lfi['lf']), None)
+                rewrite.append({'op': 'set_fh', 'lf': lfi['lf'], 'prop': 'header_id', 'v': nid})
+                if first_o is not None:
+                    rewrite.append({'op': 'set', 'h': first_o['h'], 'attr': 'file_id', 'part': 'value', 'v': nid, 'c': 0})
+    return {'scenario': {'env': {'tz': 'UTC'}, 'history': ops}, 'params': {'mode': mode, 'n_lf': n_lf, 'rewrite': rewrite}}
 
 
 def origin_position(hist):
@@ -91,8 +105,12 @@ def check_case(case, ex):
     fid = C.fid_of(hist)
     stats = C.new_stats(case)
     out = []
-    sc, res = C.run(case, ex, [C.wop(fid, output_chunk_size=1 << 20)], stats)
+    rw = case['params'].get('rewrite')
+    pre = ([C.wop(fid, output_chunk_size=1 << 20, path='first.dlis')] + rw) if rw else []
+    sc, res = C.run(case, ex, pre + [C.wop(fid, output_chunk_size=1 << 20)], stats)
     m, dec, st = C.model_and_decode(sc, res)
+    if rw:
+        C.bump(stats['probes'], 'rewritten_after_header_change')
     pos = origin_position(hist)
     n_or = sum(1 for op in hist if op.get('op') == 'add' and op['kind'] == 'origin')
     if dec is None:
@@ -100,7 +118,7 @@ def check_case(case, ex):
         if st is not None and st.get('out') == 'exc':
             C.bump(stats['probes'], 'write_exc_' + str(st.get('exc')))
         return {'violations': out, 'stats': stats}
-    fp = {'origin_pos': pos, 'n_lf': min(case['params']['n_lf'], 3), 'named_sets': any(
+    fp = {'origin_pos': pos, 'n_lf': min(case['params']['n_lf'], 3), 'rewritten': bool(rw), 'named_sets': any(
         (op.get('kwargs') or {}).get('set_name') for op in hist if op.get('op') == 'add')}
     out.extend(I.record_order(m, dec, fid, extra_fp=fp))
     bad = [e for e in dec.errors if e.rule.startswith(('framing.', 'reasm.')) or (
